@@ -72,8 +72,13 @@ pub fn pollute(r: &mut Rng) {
             }
             2 => {
                 // bigger objects than the case will use
-                let n = *r.pick(&[70usize, 130, 257]);
-                let _ = catch(|| (AdjacencyMap::complete(n).order(), AdjacencyList::cycle(n).order(), AdjacencyMatrix::star(n).order(), EdgeList::path(n).order()));
+                let n = *r.pick(&[40usize, 70, 130]);
+                let _ = catch(|| match n % 4 {
+                    0 => AdjacencyMap::complete(n).order(),
+                    1 => AdjacencyList::cycle(n + 200).order(),
+                    2 => AdjacencyMatrix::star(n + 200).order(),
+                    _ => EdgeList::path(n + 200).order(),
+                });
             }
             3 => {
                 // traversals that panic on a source outside the digraph
